@@ -303,3 +303,21 @@ def _quantified(orc):
 oracle_C06 = _quantified(oracle_C06)  # noqa: F821
 oracle_C08 = _quantified(oracle_C08)  # noqa: F821
 oracle_C10 = _quantified(oracle_C10)  # noqa: F821
+
+
+# ---- C11 speaks about whitespace "between tokens INSIDE a statement".  The whitespace that follows a statement terminator
+# lies between statements: whether a trailing comment still belongs to the statement it follows is decided by the line
+# break after the terminator, by design.  The replacement spacing therefore keeps the original whitespace there.
+_base_oracle_C11 = oracle_C11  # noqa: F821
+
+
+def oracle_C11(case):  # noqa: F811
+    try:
+        lexemes, seps_a, seps_b, casing = case
+        words = _oc._c11_words(lexemes)
+        if len(seps_a) == len(seps_b) == len(words) - 1:
+            seps_b = tuple(sa if words[i] == ';' else sb for i, (sa, sb) in enumerate(zip(seps_a, seps_b)))
+            case = (lexemes, seps_a, seps_b, casing)
+    except Exception:       # noqa
+        pass
+    return _base_oracle_C11(case)
